@@ -29,7 +29,7 @@ pub struct Case {
     pub report_all: bool,
     /// 0 = CountFilter, 1 = CountFilterSet, 2 = recorder
     pub summarizer: u8,
-    pub min_obs: u8,
+    pub min_obs: u32,
     pub container: u8,
     pub slices: u16,
     pub aux: u64,
@@ -43,7 +43,7 @@ fn case_strategy(k: usize, env: &Env) -> BoxedStrategy<Case> {
         any::<bool>(),
         any::<bool>(),
         0u8..3,
-        prop_oneof![3 => 0u8..4, 1 => Just(200u8)],
+        prop_oneof![12 => 0u32..4, 2 => Just(200u32), 1 => proptest::sample::select(vec![255u32, 256, 65535, 65536, 65537, 131072, 131073, 196610])],
         0u8..5,
         prop_oneof![
             3 => Just(1u16),
@@ -309,7 +309,7 @@ pub fn check<K: Kmer>(c: &Case) -> CheckResult {
             let (got, cn) = run_container::<K, u16, _>(
                 &reads, &labels, c.container, CountFilter::new(min), c.stranded, c.report_all, slices, &probes, c.aux,
             );
-            check_common(&got, &t, &|e| e.count() >= min, c.stranded, c.report_all)?;
+            check_common(&got, &t, &|e| e.count().min(65535) >= min, c.stranded, c.report_all)?;
             for (key, _, d) in &got.entries {
                 let want = t[key].count().min(65535) as u16;
                 if *d != want {
@@ -386,6 +386,7 @@ pub fn check<K: Kmer>(c: &Case) -> CheckResult {
         .label(c.summarizer == 1, "CountFilterSet")
         .label(c.summarizer == 2, "recorder")
         .label(min > max_count, "threshold_above_every_count")
+        .label(min >= 65535, "threshold>=65535")
         .label(cname == "DnaStringSlice(rc)", "container_rc_slice")
         .label(cname == "Lmer6", "container_lmer")
         .label(t.keys().any(|s| !c.stranded && is_pal(s)), "has_palindrome")
